@@ -1529,3 +1529,372 @@ func ruleDagNodesLocks(r *Run) {
 	}
 	r.check(n >= 10, "datastore:dag-node-map-accesses", fmt.Sprintf("%d", n), "too few: rule needs review", "-")
 }
+
+// ---------------------------------------------------------------------------------------------
+// R20.44 — a map handed out by a getter is not changed in place
+
+func init() {
+	register(ruleDef{ID: "R20.44", Prop: "C20", Tier: "quick", Floor: 2,
+		Title: "a map handed out by a getter is not changed in place: where a method returns a map field of its receiver as it is (no copy), no caller in the datastore, server or datatype packages stores into or deletes from the returned map — readers (the JSON encoders of /info and /tags) iterate that very map with no lock, and a concurrent store ends the process; a changed map is built aside and swapped in",
+		Fn:    ruleLiveMapNotWrittenInPlace})
+}
+
+func ruleLiveMapNotWrittenInPlace(r *Run) {
+	w := r.W
+	// getters: every return yields a load of a map-typed field of the receiver
+	getters := map[*ssa.Function]string{}
+	for _, f := range w.RepoFuncs {
+		if len(f.Blocks) != 1 || f.Signature.Recv() == nil || isTestFunc(w, f) || f.Signature.Results().Len() != 1 {
+			continue
+		}
+		if _, ok := f.Signature.Results().At(0).Type().Underlying().(*types.Map); !ok {
+			continue
+		}
+		ret, ok := f.Blocks[0].Instrs[len(f.Blocks[0].Instrs)-1].(*ssa.Return)
+		if !ok || len(ret.Results) != 1 {
+			continue
+		}
+		if mf, _, ok := mapFieldOf(ret.Results[0]); ok {
+			getters[f] = mf.typ + "." + mf.field
+		}
+	}
+	n, sitesN := 0, 0
+	for _, f := range w.RepoFuncs {
+		p := relPkg(pkgPathOf(f))
+		if !(p == "datastore" || p == "server" || strings.HasPrefix(p, "datatype/")) || len(f.Blocks) == 0 || isTestFunc(w, f) {
+			continue
+		}
+		k := 0
+		for _, c := range calls(f) {
+			cv, ok := c.(*ssa.Call)
+			if !ok {
+				continue
+			}
+			field := ""
+			for _, callee := range w.Callees(c) {
+				if g, ok := getters[callee]; ok {
+					field = g
+				}
+				// promoted through an embedded *datastore.Data: the wrapper calls the getter
+				if callee.Synthetic != "" {
+					for _, c2 := range calls(callee) {
+						if g, ok := getters[staticCallee(c2)]; ok {
+							field = g
+						}
+					}
+				}
+			}
+			if field == "" {
+				continue
+			}
+			sitesN++
+			// stores into the returned map (followed through locals and phis)
+			for _, b := range f.Blocks {
+				for _, in := range b.Instrs {
+					var m ssa.Value
+					switch x := in.(type) {
+					case *ssa.MapUpdate:
+						m = x.Map
+					case *ssa.Call:
+						if bi, ok := x.Call.Value.(*ssa.Builtin); ok && bi.Name() == "delete" {
+							m = x.Call.Args[0]
+						}
+					}
+					if m == nil {
+						continue
+					}
+					from := false
+					var walk func(v ssa.Value, depth int)
+					walk = func(v ssa.Value, depth int) {
+						if depth > 8 || from {
+							return
+						}
+						switch x := v.(type) {
+						case *ssa.Call:
+							if x == cv {
+								from = true
+							}
+						case *ssa.Phi:
+							for _, e := range x.Edges {
+								walk(e, depth+1)
+							}
+						case *ssa.ChangeType:
+							walk(x.X, depth+1)
+						case *ssa.UnOp:
+							if al, ok := x.X.(*ssa.Alloc); ok {
+								for _, ref := range *al.Referrers() {
+									if st, ok := ref.(*ssa.Store); ok && st.Addr == ssa.Value(al) {
+										walk(st.Val, depth+1)
+									}
+								}
+							}
+						}
+					}
+					walk(m, 0)
+					if !from {
+						continue
+					}
+					k++
+					n++
+					r.violation(fmt.Sprintf("%s:%s:written-in-place#%d", fname(f), field, k),
+						"the map returned by the getter of "+field+" — the live map of the object — is changed in place: a request that lists it at the same time (GET info / tags encode it with no lock) ends the process with `fatal error: concurrent map iteration and map write`", w.pos(in.Pos()))
+				}
+			}
+		}
+	}
+	r.check(len(getters) >= 2, "repo:live-map-getters", fmt.Sprintf("%d getters, %d call sites, %d in-place writes", len(getters), sitesN, n), "fewer getters than expected: rule needs review", "-")
+	r.check(sitesN >= 2, "repo:live-map-getter-calls", fmt.Sprintf("%d", sitesN), "fewer call sites than expected: rule needs review", "-")
+}
+
+// ---------------------------------------------------------------------------------------------
+// R20.45 — a consumer that ends on a nil sentinel ends on it on every path
+
+func init() {
+	register(ruleDef{ID: "R20.45", Prop: "C20", Tier: "quick", Floor: 10,
+		Title: "a consumer that ends on a nil sentinel ends on every path: where a loop receives from a channel and returns when the received pointer is nil, no path on which the pointer is nil leads back to the receive (the producer has finished and never closes the channel: the consumer would block for ever, and with it the request that waits for it)",
+		Fn:    ruleSentinelEndsLoop})
+}
+
+func ruleSentinelEndsLoop(r *Run) {
+	w := r.W
+	n := 0
+	for _, f := range w.RepoFuncs {
+		if !inRepo(f) || len(f.Blocks) == 0 || isTestFunc(w, f) || strings.HasPrefix(relPkg(pkgPathOf(f)), "cmd/") {
+			continue
+		}
+		k := 0
+		for _, b := range f.Blocks {
+			for _, in := range b.Instrs {
+				rcv, ok := in.(*ssa.UnOp)
+				if !ok || rcv.Op != token.ARROW || rcv.CommaOk {
+					continue
+				}
+				if _, isPtr := rcv.Type().Underlying().(*types.Pointer); !isPtr {
+					continue
+				}
+				_, set, _ := innermostLoop(f, b)
+				if set == nil {
+					continue
+				}
+				// the sentinel idiom: a test of the received value against nil inside the loop, one side of
+				// which returns (or leaves the loop) at once
+				isNilTest := func(ifi *ssa.If) (eq bool, ok bool) {
+					bo, ok2 := ifi.Cond.(*ssa.BinOp)
+					if !ok2 || (bo.Op != token.EQL && bo.Op != token.NEQ) || bo.X != ssa.Value(rcv) || !isNilConst(bo.Y) {
+						return false, false
+					}
+					return bo.Op == token.EQL, true
+				}
+				sentinel := false
+				for blk := range set {
+					ifi, isIf := blk.Instrs[len(blk.Instrs)-1].(*ssa.If)
+					if !isIf {
+						continue
+					}
+					eq, ok2 := isNilTest(ifi)
+					if !ok2 {
+						continue
+					}
+					nilSucc := blk.Succs[0]
+					if !eq {
+						nilSucc = blk.Succs[1]
+					}
+					if !set[nilSucc] {
+						sentinel = true
+						continue
+					}
+					if _, isRet := nilSucc.Instrs[len(nilSucc.Instrs)-1].(*ssa.Return); isRet {
+						sentinel = true
+					}
+				}
+				if !sentinel {
+					continue
+				}
+				n++
+				k++
+				assumeNil := func(blk *ssa.BasicBlock, i int) bool {
+					ifi, isIf := blk.Instrs[len(blk.Instrs)-1].(*ssa.If)
+					if !isIf {
+						return true
+					}
+					eq, ok2 := isNilTest(ifi)
+					if !ok2 {
+						return true
+					}
+					if eq {
+						return i == 0
+					}
+					return i == 1
+				}
+				p := findPath(f, rcv, nil, func(x ssa.Instruction) bool { return x == ssa.Instruction(rcv) }, assumeNil)
+				r.check(p == nil, fmt.Sprintf("%s:sentinel-loop#%d", fname(f), k), "with the sentinel received, every path leaves the loop",
+					"with the nil sentinel received there is a path back to the receive: the producer has finished and the channel is never closed, so the consumer blocks for ever — and the request that waits for it never answers", w.pos(rcv.Pos()), w.renderPath(p)...)
+			}
+		}
+	}
+	r.check(n >= 10, "repo:sentinel-loops", fmt.Sprintf("%d", n), "fewer sentinel loops than expected: rule needs review", "-")
+}
+
+// ---------------------------------------------------------------------------------------------
+// R20.46 — the producer of a ranged-over channel closes it on every exit
+
+func init() {
+	register(ruleDef{ID: "R20.46", Prop: "C20", Tier: "quick", Floor: 3,
+		Title: "the producer of a ranged-over channel closes it on every exit: where a function starts a goroutine with a channel and then ranges over that channel, every return of the goroutine's function is behind a close of the channel (explicit on the path, or deferred) — a producer that returns early on an error leaves the request ranging for ever, with its throttle slot and locks",
+		Fn:    ruleProducerClosesChannel})
+}
+
+func ruleProducerClosesChannel(r *Run) {
+	w := r.W
+	n := 0
+	for _, f := range w.RepoFuncs {
+		if !inRepo(f) || len(f.Blocks) == 0 || isTestFunc(w, f) || strings.HasPrefix(relPkg(pkgPathOf(f)), "cmd/") {
+			continue
+		}
+		// channels this function ranges over: `for x := range ch` is a comma-ok receive whose ok decides the loop
+		ranged := map[ssa.Value]bool{}
+		for _, b := range f.Blocks {
+			for _, in := range b.Instrs {
+				rcv, ok := in.(*ssa.UnOp)
+				if !ok || rcv.Op != token.ARROW || !rcv.CommaOk {
+					continue
+				}
+				if _, set, _ := innermostLoop(f, b); set != nil {
+					ranged[rcv.X] = true
+				}
+			}
+		}
+		if len(ranged) == 0 {
+			continue
+		}
+		k := 0
+		for _, c := range calls(f) {
+			g, isGo := c.(*ssa.Go)
+			if !isGo {
+				continue
+			}
+			var callee *ssa.Function
+			var inner []ssa.Value // the channel as seen inside the callee
+			if sc := g.Call.StaticCallee(); sc != nil && len(sc.Blocks) > 0 {
+				callee = sc
+				for i, a := range g.Call.Args {
+					if ranged[a] && i < len(sc.Params) {
+						inner = append(inner, sc.Params[i])
+					}
+				}
+				if mc, ok := g.Call.Value.(*ssa.MakeClosure); ok {
+					for i, bnd := range mc.Bindings {
+						if ranged[bnd] && i < len(sc.FreeVars) {
+							inner = append(inner, sc.FreeVars[i])
+						}
+						// captured by reference: the binding is the address of the local holding the channel
+						for ch := range ranged {
+							if u, ok := ch.(*ssa.UnOp); ok && u.X == bnd && i < len(sc.FreeVars) {
+								inner = append(inner, sc.FreeVars[i])
+							}
+						}
+					}
+				}
+			}
+			if callee == nil || len(inner) == 0 {
+				continue
+			}
+			// other senders? the rule is about the single producer the function waits for
+			for _, ch := range inner {
+				isClose := func(x ssa.Instruction) bool {
+					cc, ok := x.(ssa.CallInstruction)
+					if !ok {
+						return false
+					}
+					bi, ok := cc.Common().Value.(*ssa.Builtin)
+					if !ok || bi.Name() != "close" {
+						return false
+					}
+					a := cc.Common().Args[0]
+					if a == ch {
+						return true
+					}
+					if u, ok := a.(*ssa.UnOp); ok && u.X == ch {
+						return true
+					}
+					return false
+				}
+				closes := false
+				for _, b := range callee.Blocks {
+					for _, x := range b.Instrs {
+						if isClose(x) {
+							closes = true
+						}
+					}
+				}
+				if !closes {
+					continue // closed elsewhere (e.g. by the launcher after a WaitGroup): another idiom
+				}
+				n++
+				k++
+				p := findPath(callee, nil, isClose, func(x ssa.Instruction) bool { _, isRet := x.(*ssa.Return); return isRet }, nil)
+				r.check(p == nil, fmt.Sprintf("%s:go-%s#%d:closes-on-every-exit", fname(f), callee.Name(), k), "every return of the producer is behind the close",
+					"the goroutine "+callee.Name()+" can return without closing the channel its starter ranges over: the request never finishes (and keeps its throttle slot: with throttling on, every later throttled request gets 503)", w.pos(g.Pos()), w.renderPath(p)...)
+			}
+		}
+	}
+	r.check(n >= 3, "repo:ranged-producers", fmt.Sprintf("%d", n), "fewer producers than expected: rule needs review", "-")
+}
+
+// ---------------------------------------------------------------------------------------------
+// R20.47 — stored or posted text is never a format string
+
+func init() {
+	register(ruleDef{ID: "R20.47", Prop: "C20", Tier: "quick", Floor: 1,
+		Title: "stored or posted text is never a format string: in the server, datastore and datatype packages every call of fmt.Fprintf, fmt.Sprintf, fmt.Errorf and of the repository's own printf-style helpers (BadRequest, the dvid log functions) that passes no arguments after the format passes a constant format (text that came from a request or the store, used as the format, turns every % into garbage — a note \"100%\" reads back as broken JSON)",
+		Fn:    ruleNoDataAsFormat})
+}
+
+func ruleNoDataAsFormat(r *Run) {
+	w := r.W
+	n := 0
+	for _, f := range w.RepoFuncs {
+		p := relPkg(pkgPathOf(f))
+		if !(p == "server" || p == "datastore" || strings.HasPrefix(p, "datatype/")) || len(f.Blocks) == 0 || isTestFunc(w, f) {
+			continue
+		}
+		k := 0
+		for _, c := range calls(f) {
+			callee := staticCallee(c)
+			if callee == nil || callee.Pkg == nil || callee.Pkg.Pkg.Path() != "fmt" {
+				continue
+			}
+			fi := -1
+			switch callee.Name() {
+			case "Fprintf":
+				fi = 1
+			case "Sprintf", "Errorf", "Printf":
+				fi = 0
+			}
+			args := c.Common().Args
+			if fi < 0 || fi+1 >= len(args) {
+				continue
+			}
+			// Fprintf to an http.ResponseWriter or any writer alike
+			n++
+			format := args[fi]
+			if _, isConst := format.(*ssa.Const); isConst {
+				continue
+			}
+			// arguments after the format?
+			va := args[fi+1]
+			noArgs := false
+			if cst, ok := va.(*ssa.Const); ok && cst.IsNil() {
+				noArgs = true
+			}
+			if !noArgs {
+				continue // a computed format with arguments is a (rare) deliberate format
+			}
+			// constant pieces joined at run time with data are still data
+			k++
+			r.violation(fmt.Sprintf("%s:%s#%d:constant-format", fname(f), callee.Name(), k),
+				"a run-time string is used as the format of "+callee.Name()+" with no arguments: a % in it (a note, alias, description or log line a client posted) is expanded into %!d(MISSING)-style text — what is read back is not what was stored, and JSON built this way does not parse", w.pos(c.Pos()))
+		}
+	}
+	r.check(n >= 20, "repo:printf-calls", fmt.Sprintf("%d", n), "too few: rule needs review", "-")
+}
